@@ -150,23 +150,27 @@ class Summariser:
         return Path(list(p.tests), list(p.effects), p.kind, p.value, dict(p.env), p.node)
 
     # a test with short-circuit operators: cont_true / cont_false are continuations taking the path
-    def _test(self, e, p: Path, cont_true, cont_false):
+    def _test(self, e, p: Path, cont_true, cont_false, raw: bool = False):
+        # raw: e is already expressed over entry values (a substituted local that turned out to be a compound test)
         if isinstance(e, ast.BoolOp):
             vals = e.values
 
             def chain(i, q):
                 if i == len(vals) - 1:
-                    self._test(vals[i], q, cont_true, cont_false)
+                    self._test(vals[i], q, cont_true, cont_false, raw)
                 elif isinstance(e.op, ast.Or):
-                    self._test(vals[i], q, cont_true, lambda r: chain(i + 1, r))
+                    self._test(vals[i], q, cont_true, lambda r: chain(i + 1, r), raw)
                 else:
-                    self._test(vals[i], q, lambda r: chain(i + 1, r), cont_false)
+                    self._test(vals[i], q, lambda r: chain(i + 1, r), cont_false, raw)
             chain(0, p)
             return
         if isinstance(e, ast.UnaryOp) and isinstance(e.op, ast.Not):
-            self._test(e.operand, p, cont_false, cont_true)
+            self._test(e.operand, p, cont_false, cont_true, raw)
             return
-        e2 = _split_walrus(e, p.env)
+        e2 = e if raw else _split_walrus(e, p.env)
+        if not raw and (isinstance(e2, ast.BoolOp) or (isinstance(e2, ast.UnaryOp) and isinstance(e2.op, ast.Not))):
+            self._test(e2, p, cont_true, cont_false, True)
+            return
         neg = _canon_neg(e2)
         a, b = self._fork(p), self._fork(p)
         t = neg if neg is not None else e2
